@@ -832,6 +832,61 @@ def _expand_dict_dispatch(tree: ast.Module) -> None:
                 return ast.copy_location(_S().visit(copy.deepcopy(f_.body)), node)
             return node
 
+    _OPS = {"lt": ast.Lt, "le": ast.LtE, "gt": ast.Gt, "ge": ast.GtE, "eq": ast.Eq, "ne": ast.NotEq}
+
+    def _simplify_arm(stmts: List[ast.stmt]) -> List[ast.stmt]:
+        """after a table entry was put in place: `a, b = (X, Y)` is split, names bound once to a constant / dotted name at the top
+        of the arm are propagated, `P if True else Q` is folded, `operator.le(x, y)` is `x <= y`"""
+        out: List[ast.stmt] = []
+        for st in stmts:
+            if isinstance(st, ast.Assign) and len(st.targets) == 1 and isinstance(st.targets[0], ast.Tuple) and isinstance(st.value, ast.Tuple) \
+                    and len(st.targets[0].elts) == len(st.value.elts) and all(isinstance(t, ast.Name) for t in st.targets[0].elts):
+                for t, v in zip(st.targets[0].elts, st.value.elts):
+                    out.append(ast.copy_location(ast.Assign(targets=[t], value=v), st))
+            else:
+                out.append(st)
+        stores: Dict[str, int] = {}
+        for st in out:
+            for x in ast.walk(st):
+                if isinstance(x, ast.Name) and not isinstance(x.ctx, ast.Load):
+                    stores[x.id] = stores.get(x.id, 0) + 1
+        env: Dict[str, ast.AST] = {}
+        rest: List[ast.stmt] = []
+        prefix = True
+        for st in out:
+            if prefix and isinstance(st, ast.Assign) and len(st.targets) == 1 and isinstance(st.targets[0], ast.Name) \
+                    and stores.get(st.targets[0].id) == 1 and atom(st.value) and not (isinstance(st.value, ast.Name) and st.value.id in stores):
+                env[st.targets[0].id] = st.value
+                rest.append(st)
+                continue
+            prefix = False
+            rest.append(st)
+
+        class _P(ast.NodeTransformer):
+            def visit_Name(s_, x):  # type: ignore[no-untyped-def]  # noqa: N805
+                if isinstance(x.ctx, ast.Load) and x.id in env:
+                    return ast.copy_location(copy.deepcopy(env[x.id]), x)
+                return x
+
+            def visit_IfExp(s_, x):  # type: ignore[no-untyped-def]  # noqa: N805
+                s_.generic_visit(x)
+                if isinstance(x.test, ast.Constant) and isinstance(x.test.value, bool):
+                    return x.body if x.test.value else x.orelse
+                return x
+
+            def visit_Call(s_, x):  # type: ignore[no-untyped-def]  # noqa: N805
+                s_.generic_visit(x)
+                d = dotted(x.func) or ""
+                if d.startswith("operator.") and d.split(".")[1] in _OPS and len(x.args) == 2 and not x.keywords:
+                    return ast.copy_location(ast.Compare(left=x.args[0], ops=[_OPS[d.split(".")[1]]()], comparators=[x.args[1]]), x)
+                return x
+        res = []
+        for st in rest:
+            if isinstance(st, ast.Assign) and len(st.targets) == 1 and isinstance(st.targets[0], ast.Name) and st.targets[0].id in env:
+                continue  # propagated into every use below: the binding itself is dead
+            res.append(_P().visit(st))
+        return res or [ast.Pass()]
+
     class _T(ast.NodeTransformer):
         depth = 0
 
@@ -869,7 +924,7 @@ def _expand_dict_dispatch(tree: ast.Module) -> None:
                             return ast.copy_location(copy.deepcopy(v), x)
                         s_.generic_visit(x)
                         return x
-                body = [_Beta().visit(_S().visit(copy.deepcopy(st))) for st in node.body]
+                body = _simplify_arm([_Beta().visit(_S().visit(copy.deepcopy(st))) for st in node.body])
                 test = ast.Compare(left=copy.deepcopy(key), ops=[ast.Eq()], comparators=[copy.deepcopy(k)])
                 chain = [ast.copy_location(ast.If(test=test, body=body, orelse=chain), node)]
             for x in chain:
